@@ -49,6 +49,8 @@ fn main() -> Result<(), Box<dyn std::error::Error>> {
     println!("cargo::rustc-env=RADICLE_VERSION={version}");
     println!("cargo::rustc-env=SOURCE_DATE_EPOCH={commit_time}");
     println!("cargo::rustc-env=GIT_HEAD={hash}");
+    // Verification hook guard: declare `cfg(kani)` as a known cfg name.
+    println!("cargo::rustc-check-cfg=cfg(kani)");
 
     Ok(())
 }
